@@ -131,8 +131,9 @@ func (c *client) sendCBOR(message any) error {
 	c.mutex.Lock()
 	defer c.mutex.Unlock()
 	vh("c.send", "msg", message)
-	defer vh("c.sent", "msg", message)
-	return c.encoder.Encode(message)
+	err := c.encoder.Encode(message)
+	vh("c.sent", "msg", message, "err", err)
+	return err
 }
 
 func (c *client) ReadSchema() (*schema.SchemaSchema, error) {
